@@ -40,6 +40,12 @@ inductive Instr
   | stop                                       -- raise BOOM;
   | try_ (body handler : List Instr)           -- begin … exception when others then … end;
   | loop (n : Nat) (body : List Instr)         -- for II in 1 to n loop … end loop;
+  | tdel (t : String) (i : Nat)                -- T.delete(i);            (member_delete.cpp: erase, the element's value is destructed)
+  | tins (t : String) (i : Nat) (x : String)   -- T.insert(i, X);         (member_insert.cpp: a clone of X inserted, i = size allowed)
+  | tcat (t : String) (x : String)             -- T.concat(X);            (member_concat.cpp: a clone of X appended, a null X too)
+  | fall (t : String)                          -- forall EE in T loop NN = EE.id(); end loop;   (the iterator POINTS to the element: no copy)
+  | mthrow (k : Int)                           -- NN = vmod(k).fail(1);   (an object is built, the method raises before anything is stored)
+  | newf (x : String) (b : Bool)               -- X = vmod(b);            (the constructor fails: returns nothing / raises — no object)
 
 inductive V
   | null
@@ -173,6 +179,26 @@ def argDump (st : St) (v : V) : String :=
     | some o => "O:" ++ objName o
     | none => "O:?"
   | _ => "N"
+
+/-- `Context::saveReturned` (context.cpp:431): the value a previous `return` left in the context and that the host never
+took (`bloc_drop_returned`) is deleted, then the new one is kept (an lvalue was cloned by `ret`). The slot is also
+emptied by `purge` and by the destructor of the context (both are `S.release` here: the handles are owned by the context). -/
+def saveReturned (st : St) (old : Option V) (v : V) : Except HErr (St × Option V) :=
+  match old with
+  | some w =>
+    match clearV st w with
+    | .ok st' => .ok (st', some v)
+    | .error e => .error e
+  | none => .ok (st, some v)
+
+/-- `Context::dropReturned` + the host deleting the value -/
+def dropReturned (st : St) (old : Option V) : Except HErr (St × Option V) :=
+  match old with
+  | some w =>
+    match clearV st w with
+    | .ok st' => .ok (st', none)
+    | .error e => .error e
+  | none => .ok (st, none)
 
 abbrev Step := St × Frame × Out
 
@@ -333,6 +359,56 @@ def exec (funcs : List Func) (root : Nat) : Nat → Instr → St → Frame → S
       | (st1, fr1, .err true) => execList funcs root fuel handler st1 fr1
       | r => r
     | .loop n body => execLoop funcs root fuel n body st fr
+    | .tdel t i =>
+      match lookup fr.vars t with
+      | .tab hs =>
+        if i < hs.length then
+          let old := match hs[i]? with | some (some h) => V.obj h | _ => V.null
+          match clearV st old with
+          | .error e => failHaz st fr e
+          | .ok st1 => (st1, { fr with vars := setVar fr.vars t (.tab (hs.eraseIdx i)) }, .ok)
+        else (st, fr, .err false)       -- EXC_RT_INDEX_RANGE_S
+      | _ => (st, fr, .err false)       -- null table: EXC_RT_INDEX_RANGE_S as well
+    | .tins t i x =>
+      match lookup fr.vars t with
+      | .tab hs =>
+        if i ≤ hs.length then
+          match cloneV st (lookup fr.vars x) fr.cid with
+          | .error e => failHaz st fr e
+          | .ok (st1, v) =>
+            let nh := match v with | .obj h => some h | _ => none
+            (st1, { fr with vars := setVar fr.vars t (.tab (hs.take i ++ [nh] ++ hs.drop i)) }, .ok)
+        else (st, fr, .err false)
+      | _ => (st, fr, .err false)
+    | .tcat t x =>
+      match lookup fr.vars t with
+      | .tab hs =>
+        match cloneV st (lookup fr.vars x) fr.cid with
+        | .error e => failHaz st fr e
+        | .ok (st1, v) =>
+          let nh := match v with | .obj h => some h | _ => none
+          (st1, { fr with vars := setVar fr.vars t (.tab (hs ++ [nh])) }, .ok)
+      | _ => (st, fr, .haz .illFormed)  -- concat on a null table makes a new table: not generated
+    | .fall t =>
+      match lookup fr.vars t with
+      | .tab hs =>
+        let evs := hs.filterMap fun oh => match oh with
+          | some h => (objOf st h).map fun o => "M " ++ objName o ++ " id -"
+          | none => none
+        ({ st with evs := st.evs ++ evs }, fr, .ok)
+      | _ => (st, fr, .ok)
+    | .mthrow k =>
+      let o := st.s.h.nobj
+      let h := st.s.h.slots.length
+      match sop st (.construct fr.cid) with
+      | .error e => failHaz st fr e
+      | .ok st1 =>
+        let st1 := { st1 with evs := st1.evs ++ ["C " ++ objName o ++ " 0 I:" ++ toString k, "M " ++ objName o ++ " fail I:1"] }
+        -- the run-time error purges the working memory: the temporary is released at once
+        match sop st1 (.clear h) with
+        | .ok st2 => (st2, fr, .err false)
+        | .error e => failHaz st fr e
+    | .newf _ b => ({ st with evs := st.evs ++ ["F vmod ctor B:" ++ (if b then "1" else "0")] }, fr, .err false)
     | .call x f args => doCall funcs root fuel x f args none st fr
     | .callThrow f args y => doCall funcs root fuel "CT" f args (some y) st fr
 
